@@ -25,6 +25,7 @@ OS_FLAGS = {
     "MRP": os.O_RDWR,
 }
 _ORIG_OPEN = builtins.open
+LINK = "\x00L:"  # node value of a symbolic link: LINK + its target string (oracle-only layouts)
 ACC = {"ARd": os.O_RDONLY, "AWr": os.O_WRONLY, "ARdWr": os.O_RDWR}
 
 
@@ -124,6 +125,8 @@ def build(root: str, init):
     for p, n in sorted(init, key=lambda e: len(e[0])):
         if n == "D":
             os.mkdir(real(root, p))
+        elif n.startswith(LINK):
+            os.symlink(n[len(LINK):], real(root, p))
         else:
             with _ORIG_OPEN(real(root, p), "w") as f:
                 f.write(n)
@@ -142,7 +145,7 @@ def tree(root: str):
                 continue
             q = pre + (NAMES.index(e.name),)
             if e.is_symlink():
-                out.append((q, "L"))
+                out.append((q, LINK + os.readlink(e.path)))  # lstat view: the link itself, never followed
             elif e.is_dir():
                 out.append((q, "D"))
                 walk(e.path, q)
@@ -231,7 +234,11 @@ def perform(root, op):
             Path(_name(root, p)).mkdir(parents=True, exist_ok=eo)
     elif kind == "Rename":
         s, d = _name(root, op[1]), _name(root, op[2])
-        if fl == "os.rename":
+        if fl == "os.rename.kw":
+            os.rename(src=s, dst=d)
+        elif fl == "os.replace.kw":
+            os.replace(src=s, dst=d)
+        elif fl == "os.rename":
             os.rename(s, d)
         elif fl == "os.replace":
             os.replace(s, d)
@@ -240,11 +247,17 @@ def perform(root, op):
         else:
             Path(s).replace(Path(d))
     elif kind == "CopyFile":
-        shutil.copyfile(_name(root, op[1]), _name(root, op[2]))
+        if fl == "copyfile.kw":
+            shutil.copyfile(src=_name(root, op[1]), dst=_name(root, op[2]))
+        else:
+            shutil.copyfile(_name(root, op[1]), _name(root, op[2]))
     elif kind == "Copy":
         (shutil.copy if fl == "copy" else shutil.copy2)(_name(root, op[1]), _name(root, op[2]))
     elif kind == "Move":
-        shutil.move(_name(root, op[1]), _name(root, op[2]))
+        if fl == "move.kw":
+            shutil.move(src=_name(root, op[1]), dst=_name(root, op[2]))
+        else:
+            shutil.move(_name(root, op[1]), _name(root, op[2]))
     elif kind == "Remove":
         p = _name(root, op[1])
         if fl == "os.remove":
@@ -374,13 +387,50 @@ def gen_init(rng):
     return init
 
 
+def has_links(init) -> bool:
+    return any(n != "D" and n.startswith(LINK) for _, n in init)
+
+
+def gen_init_links(rng):
+    """A sandbox tree with 1..3 pre-existing symbolic links: dangling, to a file, to a directory (targets
+    are relative and stay inside the sandbox).  Oracle-only: the Coq model is symlink-free."""
+    init = gen_init(rng)
+    used = {p for p, _ in init}
+    dirs = [()] + [p for p, n in init if n == "D"]
+    for _ in range(rng.choice([1, 2, 3])):
+        d = rng.choice(dirs)
+        free = [c for c in range(len(NAMES)) if d + (c,) not in used]
+        if not free:
+            continue
+        q = d + (rng.choice(free),)
+        sibs = [(p, n) for p, n in init if len(p) == len(d) + 1 and p[:-1] == d and not n.startswith(LINK)]
+        kind = rng.choice(["dangling", "dangling", "file", "dir"])
+        if kind == "file" and any(n != "D" for _, n in sibs):
+            target = NAMES[rng.choice([p for p, n in sibs if n != "D"])[-1]]
+        elif kind == "dir" and any(n == "D" for _, n in sibs):
+            target = NAMES[rng.choice([p for p, n in sibs if n == "D"])[-1]]
+        else:
+            free2 = [c for c in free if d + (c,) != q]
+            if not free2:
+                continue
+            target = NAMES[rng.choice(free2)]  # nothing there: dangling
+            if rng.random() < 0.3 and d:
+                target = "../" + target
+        used.add(q)
+        init.append((q, LINK + target))
+    return init
+
+
 class _Guess:
     """What the generator believes to exist (only steers the choice of arguments)."""
 
     def __init__(self, init):
         self.all = [p for p, _ in init]
         self.files = [p for p, n in init if n != "D"]
-        self.dirs = [()] + [p for p, n in init if n == "D"]
+        links = [p for p, n in init if n != "D" and n.startswith(LINK)]
+        # links are interesting both as files and as directories (and three times as likely to be picked)
+        self.files += links * 2
+        self.dirs = [()] + [p for p, n in init if n == "D"] + links
         self.new = []
 
     def some(self, rng, prefer_new=0.5):
@@ -448,12 +498,12 @@ def gen_ops(rng, init, n):
             d = g.some(rng, 0.4) if rng.random() < 0.5 else g.fresh(rng)
             if rng.random() < 0.04:
                 d = s
-            ops.append(("Rename", s, d, rng.choice(["os.rename", "os.replace", "Path.rename", "Path.replace"])))
+            ops.append(("Rename", s, d, rng.choice(["os.rename", "os.replace", "Path.rename", "Path.replace", "os.rename.kw", "os.replace.kw"])))
             g.new.append(d)
         elif c < 0.70:
             s = g.some(rng, 0.4)
             d = g.some(rng, 0.4) if rng.random() < 0.5 else g.fresh(rng)
-            ops.append(("CopyFile", s, d, "copyfile"))
+            ops.append(("CopyFile", s, d, rng.choice(["copyfile", "copyfile", "copyfile.kw"])))
             g.new.append(d)
         elif c < 0.78:
             s = g.some(rng, 0.4)
@@ -465,7 +515,7 @@ def gen_ops(rng, init, n):
             d = g.some(rng, 0.3) if rng.random() < 0.6 else g.fresh(rng)
             if rng.random() < 0.04:
                 d = s
-            ops.append(("Move", s, d, "move"))
+            ops.append(("Move", s, d, rng.choice(["move", "move", "move.kw"])))
             g.new.append(d)
         elif c < 0.92:
             ops.append(("Remove", g.some(rng, 0.8), rng.choice(["os.remove", "os.unlink", "Path.unlink"])))
